@@ -1,2 +1,74 @@
-(* placeholder *)
-From GY Require Import Model.Number.
+(* C15 — Numbers print, parse, convert and compare as exact decimal arithmetic does.
+   Only statements, closed by [exact], and Print Assumptions (printed by the checker). *)
+From Coq Require Import List NArith ZArith QArith Bool Lia.
+Import ListNotations.
+From GY Require Import Base.Outcome Model.Number Spec.C15 Proofs.NumberProofs.
+Local Open Scope Z_scope.
+
+(* T1: ordering and equality are those of the rationals the numbers denote; every magnitude
+   below 2^64, every fraction-digits 0..18, mixed precisions, both signs, -0 = 0. *)
+Theorem C15_less : forall n m, dom n -> dom m -> (Less n m = true <-> (val n < val m)%Q).
+Proof. exact Less_spec. Qed.
+Theorem C15_equal : forall n m, dom n -> dom m -> (Equal n m = true <-> (val n == val m)%Q).
+Proof. exact Equal_spec. Qed.
+
+(* T2: conversion to int64 returns the exact value or an error, never a wrapped one, never a panic *)
+Theorem C15_int : forall n, dom n ->
+  match Int n with
+  | Ok z => FractionDigits n = 0 /\ z = sval n /\ - two63 <= z < two63
+  | Err => FractionDigits n <> 0 \/ ~ (- two63 <= sval n < two63)
+  | _ => False
+  end.
+Proof. exact Int_spec. Qed.
+
+(* T3 (integers): printing and parsing back gives the very same number *)
+Theorem C15_roundtrip_int : forall n, dom n -> FractionDigits n = 0 ->
+  exists s, String_ n = Ok s /\ ParseInt s = Ok n.
+Proof. exact roundtrip_int. Qed.
+
+(* T4 (integer literals): [sign] digits without a superfluous leading zero denotes its value,
+   or is rejected exactly when the magnitude does not fit 64 bits *)
+Theorem C15_parse_int_literal : forall sg ds,
+  all_digits ds -> ds <> [] -> (ds = [c0] \/ hd c0 ds <> c0) ->
+  ParseInt (sign_chars sg ++ ds) =
+  if cval 0 ds <=? MaxUint64
+  then Ok {| Value := cval 0 ds; FractionDigits := 0; Negative := sg_neg sg |} else Err.
+Proof. exact ParseInt_sign_digits. Qed.
+
+(* T4 (decimal literals): [sign] I . F at precision fd yields the mantissa (I F) * 10^(fd-|F|)
+   — i.e. exactly the number written — or an error exactly when it has more than fd fraction
+   digits or the mantissa does not fit a signed 64-bit integer *)
+Theorem C15_parse_decimal_point : forall sg I F fd,
+  all_digits I -> all_digits F -> 1 <= fd <= 18 ->
+  decimalValueFromString (sign_chars sg ++ I ++ cdot :: F) fd =
+  let k := Z.of_nat (length F) in
+  if k >? fd then Err
+  else let m := cval 0 (I ++ F) * 10 ^ (fd - k) in
+       if m <=? (if sg_neg sg then two63 else two63 - 1) then Ok (of_mant (sg_neg sg) m fd) else Err.
+Proof. exact dvfs_point. Qed.
+Theorem C15_parse_decimal_nopoint : forall sg I fd,
+  all_digits I -> I <> [] -> 1 <= fd <= 18 ->
+  decimalValueFromString (sign_chars sg ++ I) fd =
+  let m := cval 0 I * 10 ^ fd in
+  if m <=? (if sg_neg sg then two63 else two63 - 1) then Ok (of_mant (sg_neg sg) m fd) else Err.
+Proof. exact dvfs_nopoint. Qed.
+Theorem C15_parse_decimal_entry : forall s fd, plain s -> s <> [] -> s <> [cplus] -> s <> [cminus] ->
+  ParseDecimal s fd = decimalValueFromString s fd.
+Proof. exact ParseDecimal_plain. Qed.
+
+(* the defects repaired by fix: commits, as refutations of the pinned code's behaviour *)
+Definition Int_old (n : Number) : outcome Z :=
+  if IsDecimal n then Err
+  else if Negative n then Ok (wrap64 (- wrap64 (Value n)))
+  else if Value n <=? MaxInt64 then Ok (wrap64 (Value n)) else Err.
+Theorem C15_int_old_refuted : exists n, dom n /\ Int_old n = Ok 1 /\ sval n <> 1.
+Proof. exists {| Value := two64 - 1; FractionDigits := 0; Negative := true |}.
+  split; [|split]; [unfold dom; vm_compute; intuition discriminate | vm_compute; reflexivity | vm_compute; discriminate]. Qed.
+
+(* non-vacuity *)
+Example C15_less_ex :
+  Less {| Value := 15; FractionDigits := 1; Negative := false |}
+       {| Value := 1500000000000000001; FractionDigits := 18; Negative := false |} = true.
+Proof. vm_compute. reflexivity. Qed.
+Example C15_dom_ex : dom {| Value := two64 - 1; FractionDigits := 18; Negative := true |}.
+Proof. unfold dom; vm_compute; intuition discriminate. Qed.
